@@ -281,6 +281,20 @@ def oracle(ctx, c, r):
     return bad
 
 
+def scope_checks(ctx, r):
+    """assumptions about what lies outside the model, checked on every recorded connection"""
+    h = ctx.cov["histogram"]
+    fam = "phantom:v6" if r.get("v6") else "phantom:v4"
+    h[fam] = h.get(fam, 0) + 1
+    if any(cl["res"] == "found_foreign" for cl in (r.get("calls") or [])):
+        ctx.broken("model-scope", "a transport returned a registration that is not a *DecoyRegistration: the handler's type-assertion "
+                   "branch (delete the transport, keep going on a buffer the transport may already have consumed from) is outside the model",
+                   {"calls": r.get("calls")})
+        for cl in r["calls"]:
+            if cl["res"] == "found_foreign":
+                cl["res"] = "found"
+
+
 def table_obligation(ctx, table, consts, props="C04.Props", inst="C04_segmentation_invariance reveal mark hs dumped"):
     """prefix_table_wf re-checked by the kernel on the table dumped from the running code"""
     txt = ("From CJ Require Import Common.Base C04.Model %s.\n" % props +
@@ -350,12 +364,29 @@ def run(ctx):
         print("[C04 %5.1fs] %s" % (time.time() - t0, what), file=sys.stderr)
     # one build under the tree lock: theorems, the evaluator used by the correspondence, the examples
     # coq/C05 (the relay model, another builder's directory) is part of this property's project: it is
-    # required by C04/PropsRelay.v; it is cleaned and re-checked by C05's own run, not here
+    # required by C04/PropsRelay.v (relay_gets_rest); it is cleaned and re-checked by C05's own run, not here.
+    # If coq/C05 itself does not compile (its builder is mid-edit, or a change broke it) that is C05's alarm:
+    # this check then re-verifies everything that does not depend on it and says so in the evidence.
+    base_files = ["C04/Props.v", "C04/Run.v", "C04/Examples.v"]
+    relay_files = ["C04/PropsRelay.v", "C04/ExamplesRelay.v"]
     ctx.extra_dirs = ["C05"]
-    ctx.coq_props(props_files=["C04/Props.v", "C04/PropsRelay.v", "C04/Run.v", "C04/Examples.v", "C04/ExamplesRelay.v"])
-    bad_h = ctx.hygiene(["C05"])
-    if bad_h:
-        ctx.broken("hygiene", "forbidden constructs in coq/C05: %s" % bad_h[:5])
+    nb0 = len(ctx.brokens)
+    ctx.coq_props(props_files=base_files[:1] + relay_files[:1] + base_files[1:] + relay_files[1:])
+    c05_err = [b for b in ctx.brokens[nb0:] if b["kind"] == "proof-obligation" and "first error: C05/" in b["what"]]
+    if c05_err:
+        del ctx.brokens[nb0:]
+        for k in ("obligations", "discharged"):
+            ctx.cov[k] = 0
+        ctx.cov["theorems"] = []
+        ctx.cov["assumptions_printed"] = {}
+        ctx.cov["relay_composition"] = ("NOT re-checked in this run: coq/C05 (owned by property C05) does not compile: "
+                                        + c05_err[0]["what"][-300:])
+        ctx.coq_props(props_files=base_files)
+    else:
+        ctx.cov["relay_composition"] = "re-checked: C04_relay_gets_rest, C04_relay_direction_faultfree (over coq/C05's relay model)"
+        bad_h = ctx.hygiene(["C05"])
+        if bad_h:
+            ctx.broken("hygiene", "forbidden constructs in coq/C05: %s" % bad_h[:5])
     lap("coq props")
     rc, out, res = run_go(ctx, [])
     lap("go table dump")
@@ -393,6 +424,7 @@ def run(ctx):
                 skip.add(i)
     for i, (c, r) in enumerate(zip(cases, results)):
         bad = oracle(ctx, c, r)
+        scope_checks(ctx, r)
         kind = "%s/%s/%s" % (c["transport"], c.get("kind", "replay"), "ok" if not bad else "bad")
         ctx.count((c["transport"], c["prefix_id"], c["flush"], c["rand_port"], tuple(r.get("segs") or []), c["data_len"],
                    len(c["others"]), c["natural"]), nontrivial=bool(r.get("found")), kind=kind)
@@ -411,7 +443,7 @@ def run(ctx):
         r = results[i]
         ctx.sample({"case": {k: cases[i][k] for k in ("transport", "prefix_id", "cuts", "data_len", "natural", "kind")},
                     "observed": {k: r.get(k) for k in ("found_t", "segs", "reads", "status", "updates")}})
-    kinds = ["min/natural/ok", "min/1cut/ok", "min/1cut-banner/ok", "prefix/1cut-banner/ok", "min/2cut/ok", "prefix/natural/ok", "prefix/1cut/ok", "prefix/2cut/ok",
+    kinds = ["phantom:v4", "phantom:v6", "min/natural/ok", "min/1cut/ok", "min/1cut-banner/ok", "prefix/1cut-banner/ok", "min/2cut/ok", "prefix/natural/ok", "prefix/1cut/ok", "prefix/2cut/ok",
              "prefix/early/ok", "prefix/paced/ok", "obfs4/obfs4/ok", "min/fill/ok", "prefix/fill/ok", "min/bytewise/ok", "prefix/bytewise/ok", "min/paced/ok"]
     if not ctx.known and not os.environ.get("VERIF_C04_ONLY") and not ctx.replay:
         ctx.require_kinds(kinds)
